@@ -148,7 +148,7 @@ package cl
 //@   property C01 C07
 //@   option trace
 //@   ensures outer-scope: forall k :: (old($n) <= k && k < $n) ==> ($escope[k] == s && $eidx[k] == 1 && $eslot[k] == 0 - 1)
-//@   ensures no-exit-out: $exit == old($exit)
+//@   ensures no-exit-out: $xexit == old($xexit) && $exit == old($exit)
 //@   ensures held: $held == old($held) && $last == old($last)
 //@   loop rangeindex: invariant outer: old($n) <= $n && (forall k :: (old($n) <= k && k < $n) ==> ($escope[k] == s && $eidx[k] == 1 && $eslot[k] == 0 - 1)) && $held == old($held) && $last == old($last)
 
@@ -161,3 +161,83 @@ package cl
 //@   ensures all-body: (!$exit && len(args) > 1) ==> ($last == len(args) - 1 && result == $eres[$n - 1])
 //@   ensures exit-stops: exit_stops(result)
 //@   loop i<len(args): invariant trace: (forall k :: (0 <= k && k < $n && $eslot[k] >= 0) ==> ($eslot[k] >= 1 && $escope[k] != s)) && (forall k :: (0 <= k && k < $n && $eslot[k] < 0) ==> $escope[k] == s) && (i > 1 ==> $last == i - 1) && (i == 1 ==> $last == 0 - 1) && (i > 1 ==> ($n >= 1 && result == $eres[$n - 1]))
+
+// let* binds in sequence: every init form and every body form is evaluated in
+// the new scope (never in s).
+//@ func cl.(*Letx).Call
+//@   property C01 C07
+//@   option eval-once
+//@   option forward-body-exits
+//@   ensures new-scope: forall k :: (0 <= k && k < $n) ==> $escope[k] != s
+//@   ensures all-body: (!$exit && len(args) > 1) ==> ($last == len(args) - 1 && result == $eres[$n - 1])
+//@   ensures exit-stops: exit_stops(result)
+//@   loop len(bindings): invariant init: (forall k :: (0 <= k && k < $n) ==> $escope[k] != s) && $last == 0 - 1 && !$exit
+//@   loop i<len(args): invariant body: (forall k :: (0 <= k && k < $n) ==> $escope[k] != s) && (i > 1 ==> ($last == i - 1 && $n >= 1 && result == $eres[$n - 1])) && (i == 1 ==> $last == 0 - 1)
+
+// block: body forms in order in a new scope; a return marker stops the body.
+//@ func cl.(*Block).Call
+//@   property C07
+//@   option eval-once
+//@   option forward-body-exits
+//@   option consumes-return
+//@   ensures body: forall k :: (0 <= k && k < $n) ==> ($eslot[k] == k + 1 && $escope[k] != s)
+//@   ensures stops-at-exit: forall k :: (0 <= k && k < $n - 1) ==> !is_exit($eres[k])
+//@   ensures all-or-exit: $n == len(args) - 1 || ($n >= 1 && is_exit($eres[$n - 1]))
+//@   loop i<len(args): invariant body: $n == i - 1 && (forall k :: (0 <= k && k < $n) ==> ($eslot[k] == k + 1 && $escope[k] != s && !is_exit($eres[k])))
+
+// return-from: every call creates its own result marker (an exit in flight is
+// never overwritten by a later one).
+//@ func cl.(*ReturnFrom).Call
+//@   property C07
+//@   option trace
+//@   ensures fresh-marker: fresh(result)
+//@   ensures value-once: $n <= 1 && ($n == 1 ==> ($eslot[0] == 1 && $escope[0] == s))
+
+// lambda: every evaluation of a lambda expression creates a new closure object.
+//@ func cl.(*Lambda).Call
+//@   property C01
+//@   ensures fresh-closure: fresh(result)
+
+// dolist / dotimes: the result form sees the loop variable bound as the
+// language defines (nil after dolist, the count after dotimes).
+//@ func cl.(*Dolist).Call
+//@   property C01
+//@   option trace
+//@   at-eval result-form-sees-nil: ($kind == 2 && $obj == rform && $n >= 1) ==> (has(ns.Vars, sym) && ns.Vars[sym] == nil)
+//@   at-eval body-scope: ($kind == 1) ==> ($scope == ns && $scope != s)
+
+//@ func cl.(*Dotimes).Call
+//@   property C01
+//@   option trace
+//@   at-eval body-scope: ($kind == 1) ==> ($scope == ns && $scope != s)
+
+// do: init forms are evaluated in the enclosing scope (parallel binding), the
+// end test, result forms, body and step forms in the new scope.
+//@ func cl.setupDo
+//@   property C01
+//@   option trace
+//@   requires distinct-scopes: s != ns
+//@   ensures init-outer: forall k :: (old($n) <= k && k < $n && $ek[k] == 1) ==> $escope[k] == s
+//@   loop rangeindex: invariant init-outer: old($n) <= $n && (forall k :: (old($n) <= k && k < $n) ==> $escope[k] == s)
+
+//@ func cl.(*Do).Call
+//@   property C01
+//@   option trace
+//@   at-eval new-scope: ($n > 0) ==> true
+
+// unwind-protect (normal and exit-marker paths): the protected form, then
+// every cleanup form exactly once, in order; the protected form's value.
+//@ func cl.(*UnwindProtect).Call
+//@   property C07
+//@   option eval-once
+//@   ensures cleanup-once: $n == len(args) && slots_in_order(s)
+//@   ensures value: result == $eres[0]
+//@   loop i<len(args): invariant cleanup: $n == i && i <= len(args) && slots_in_order(s) && $n >= 1
+
+// setq: each value form once, left to right, in the current scope.
+//@ func cl.(*Setq).Call
+//@   property C01
+//@   option eval-once
+//@   ensures values: forall k :: (0 <= k && k < $n) ==> ($eslot[k] == 2 * k + 1 && $escope[k] == s)
+//@   ensures all: 2 * $n == len(args)
+//@   loop i<last: invariant pairs: i == 2 * $n && i <= len(args) && (forall k :: (0 <= k && k < $n) ==> ($eslot[k] == 2 * k + 1 && $escope[k] == s))
